@@ -588,3 +588,44 @@ pub fn env_hex(e: &Envelope) -> String {
 pub fn root_digest(e: &Envelope) -> D32 {
     *e.digest().data()
 }
+
+/// The elision entry points are twelve spellings of one function: (set | array | target) x
+/// (removing | revealing | flag) x (with action | plain elide). Dispatch to a random equivalent one.
+/// `targets` must be non-empty for the array/target forms (a single target for the target form).
+pub fn elide_via_any_entry_point(e: &Envelope, targets: &[D32], revealing: bool, act: Act, key: &SymmetricKey, rng: &mut Rng) -> Envelope {
+    let set = digest_set(targets);
+    let ds: Vec<Digest> = targets.iter().map(|d| Digest::from_data(*d)).collect();
+    let refs: Vec<&dyn DigestProvider> = ds.iter().map(|d| d as &dyn DigestProvider).collect();
+    let a = action(act, key);
+    let distinct = set.len();
+    // forms usable for this target list
+    let mut forms = vec![0u8, 1, 2];
+    if !targets.is_empty() {
+        forms.extend_from_slice(&[3, 4, 5]);
+    }
+    if distinct == 1 && !targets.is_empty() {
+        forms.extend_from_slice(&[6, 7, 8]);
+    }
+    let form = *rng.pick(&forms);
+    let plain = act == Act::Elide && rng.chance(1, 2);
+    match (form, plain, revealing) {
+        (0, false, _) => e.elide_set_with_action(&set, revealing, &a),
+        (0, true, _) => e.elide_set(&set, revealing),
+        (1, false, false) | (2, false, false) => e.elide_removing_set_with_action(&set, &a),
+        (1, false, true) | (2, false, true) => e.elide_revealing_set_with_action(&set, &a),
+        (1, true, false) | (2, true, false) => e.elide_removing_set(&set),
+        (1, true, true) | (2, true, true) => e.elide_revealing_set(&set),
+        (3, false, _) => e.elide_array_with_action(&refs, revealing, &a),
+        (3, true, _) => e.elide_array(&refs, revealing),
+        (4, false, false) | (5, false, false) => e.elide_removing_array_with_action(&refs, &a),
+        (4, false, true) | (5, false, true) => e.elide_revealing_array_with_action(&refs, &a),
+        (4, true, false) | (5, true, false) => e.elide_removing_array(&refs),
+        (4, true, true) | (5, true, true) => e.elide_revealing_array(&refs),
+        (6, false, _) => e.elide_target_with_action(&ds[0], revealing, &a),
+        (6, true, _) => e.elide_target(&ds[0], revealing),
+        (_, false, false) => e.elide_removing_target_with_action(&ds[0], &a),
+        (_, false, true) => e.elide_revealing_target_with_action(&ds[0], &a),
+        (_, true, false) => e.elide_removing_target(&ds[0]),
+        (_, true, true) => e.elide_revealing_target(&ds[0]),
+    }
+}
